@@ -27,15 +27,19 @@ MANIFEST = dict(
               "every case is encoded in its protocol, pushed through the real handler function, flushed, queried back and "
               "compared with the logical event; cross-protocol agreement on the same logical values",
     text=("spec/Protocols.tla states the law Stored(Deliver(p, e, arrival)) keeps fields/attributes (record, resource, scope)/ids/body "
-          "and time = IF e.time = none THEN arrival ELSE ToMillis(e.time), and TLC enumerates the 996 expressible cases of "
+          "and time = IF e.time = none THEN arrival ELSE ToMillis(e.time), and TLC enumerates the 1 236 expressible cases of "
           "10 protocols x 11 value kinds (string, unicode/escapes, empty, 'NaN' substring, int, negative, float, bool, >2^53 int, "
           "nested, array; 7 metric kinds) x attribute level x trace/span ids x time unit (none, s, fractional s, ms, ns, ns string, "
-          "RFC3339) x position (alone / second event of a request whose first event carries an extra attribute). Each case is "
+          "RFC3339) x request shape (alone; or between two mates - distinct logical events with their own marker, body, ids, values, time and "
+          "attribute keys - in the same scope/stream/body, in sibling scopes/streams with disjoint scope attribute keys, in sibling "
+          "resources with disjoint resource attribute keys; body lengths shrink, stay or grow along the request). EVERY event of a "
+          "request is compared with ITS logical event; a metric series must carry exactly its own datapoint + scope + resource "
+          "attributes; remote write sends two samples per series. Each case is "
           "encoded as ES bulk, ES single doc, Splunk HEC JSON, Loki push JSON, Loki push protobuf+snappy, OTLP logs, OTLP traces, "
           "OTLP metrics (protobuf), OpenTSDB put JSON, Prometheus remote write (protobuf+snappy), delivered to the handler's "
           "processing function, flushed and read back by search / PromQL selector; stored value (typed), attribute presence, "
           "ids, body, sibling contamination, multiplicity and time are compared; thorough repeats with 5 value seeds."),
-    note=("The spec is thin by design: no state space worth the name (996 states); the evidence is the real-handler replay and the "
+    note=("The spec is thin by design: no state space worth the name (1 237 states); the evidence is the real-handler replay and the "
           "cross-protocol oracle. Per protocol only the time units that protocol defines are exercised (ES: s/ms/RFC3339, HEC: "
           "epoch seconds with fraction, Loki/OTLP: ns, OpenTSDB: s/ms, remote write: ms). Metrics stores keep whole seconds; that "
           "truncation is accepted. Attribute KEY normalisation of metrics ([^a-zA-Z0-9_] -> _) is accepted. One value per kind "
